@@ -15,7 +15,8 @@ for p in props:
         os.makedirs(dst, exist_ok=True)
         for f in os.listdir(src):
             if os.path.isfile(os.path.join(src, f)): shutil.copy(os.path.join(src, f), dst)
-        out = subprocess.run(['/verif/tools/detect_seed.sh', f'{dst}/patch.diff', p], capture_output=True, text=True).stdout
+        patch = 'patch_adapted.diff' if os.path.exists(f'{dst}/patch_adapted.diff') else 'patch.diff'
+        out = subprocess.run(['/verif/tools/detect_seed.sh', f'{dst}/{patch}', p], capture_output=True, text=True).stdout
         obs = sorted(set(re.findall(r'obligation=(\S+)', out)))
         det = 'VIOLATION' in out
         notes = open(dst + '/notes.md').read() if os.path.exists(dst + '/notes.md') else ''
@@ -24,8 +25,9 @@ for p in props:
         meta = {'property': p, 'needs_to_manifest': need,
                 'origin': 'written by an independent sub-agent that saw only the property text and a scratch worktree of /repo (no access to /verif or the contracts); ' + label,
                 'confirmed': f'tools/confirm_seed3.sh {p} {n} suite (log: confirm.log): demo passes on the unmodified tree, patch applies and builds, demo fails with the patch, full grpcgcp suite passes with the patch (re-run when the fixed test port was busy or a timing test flaked under load)',
-                'checked_with': f'tools/detect_seed.sh seeded/{p}-{idx}/patch.diff {p} (scratch copy of /repo with the patch applied, gocv check -prop {p} -tier quick)',
+                'checked_with': f'tools/detect_seed.sh seeded/{p}-{idx}/{patch} {p} (scratch copy of /repo with the patch applied, gocv check -prop {p} -tier quick)',
                 'detected': det, 'failing_obligations': obs}
         if f'{p}/{n}' in hist: meta['history'] = hist[f'{p}/{n}']
+        if patch == 'patch_adapted.diff': meta['adapted'] = 'patch.diff is the change against the tree the sub-agent was given; a later fix moved the code it touches, patch_adapted.diff is the same change re-expressed on the current tree (re-confirmed: demo fails with it)'
         json.dump(meta, open(dst + '/meta.json', 'w'), indent=1)
         print(f'{p}-{idx}', det, len(obs))
